@@ -261,7 +261,7 @@ def apply_op(u: Universe, st: State, ref: Ref, op):
         else:
             _, v, x = op
             mode = "same"
-        val = None if x is None else u.settable[v][x].clone()
+        val = None if x is None else _clone_value(u.settable[v][x], {})
         eff_mode = ref.mode if mode == "same" else mode
         if kind == "ctxset":
             before_mode = st.auto_fork_type
@@ -463,11 +463,16 @@ def menu(u: Universe, st: State, ref: Ref, *, accumulate=True, clones=True, mode
                 ops.append(["put", v, k, idx, False])
                 if accumulate:
                     ops.append(["put", v, k, idx, True])
-    for v in reads if reads is not None else u.observed:
+    for v in ([r for r in reads if r in u.dag.variables] if reads is not None else u.observed):
         ops.append(["read", v])
     ops.append(["precompute"])
     ops.append(["revert"])
-    if partial_revert_enabled(st, u.n_ind):
+    forked_weighted = ref.fork is not None and (
+        isinstance(ref.fork[1], WeightedTensor) or isinstance(ref.indep.get(ref.fork[0]), WeightedTensor)
+    )
+    # (a per-individual revert of a re-assigned *weighted* data variable is documented as not implemented
+    # when the weights differ: outside the explored contract)
+    if partial_revert_enabled(st, u.n_ind) and not forked_weighted:
         all_masks = masks
         if all_masks is None:
             all_masks = [[(m >> i) & 1 for i in range(u.n_ind)] for m in range(2 ** u.n_ind)]
